@@ -18,7 +18,7 @@ def run(ctx):
                          'on each reached domain the transform pair is compared with the specified dense matrices on basis vectors')
     ctx.trusted += ['TLC 1.8.0', 'harness/refmath.py dense_transforms (written from the formula in spec/Domain.tla)', 'numpy']
     ctx.assumptions += ['round-trip bound 1e-13*max(n,16)^2 (condition of the discrete map), other comparisons 1e-11..1e-13 relative']
-    lens = [7, 64, 100] if not thorough else [3, 7, 22, 64, 100, 1000, 1031]
+    lens = [2, 7, 64, 100] if not thorough else [2, 3, 7, 22, 64, 100, 1000, 1031]
     # (lengths with prime factors 7, 11, 1031: not 5-smooth, so any FFT-length padding shows)
     steps = 2 if not thorough else 3
     res, g, info = dc.model_and_graph(ctx, 'Domain setters', lens, steps, workers=1)
